@@ -10,7 +10,7 @@ PRINTABLE_EPS = ["ε", "_", "e"]
 @st.composite
 def text_specs(draw, kind, max_states=4):
     if kind == "dfa":
-        return draw(G.dfa_specs(max_states=max_states, max_sigma=2))
+        return draw(G.dfa_specs(max_states=max_states, max_sigma=3))
     if kind == "nfa":
         return draw(G.nfa_specs(max_states=max_states, max_sigma=2, eps_choices=PRINTABLE_EPS))
     if kind == "pda":
